@@ -11,8 +11,8 @@ from mc.result import Result
 PROPERTY = 'C16'
 LEVEL = 'exploration'
 CHUNK = 40
-RULE = ('suite hierarchies (flat with plain names / globs, one and two sub-suites, depth 2, directories with exactly.suite, sub/*.case, [suites] globs matching directories and suite files) x every assignment of the 13 verdicts '
-        '(PASS, FAIL, XFAIL, XPASS, SKIPPED, HARD_ERROR, VALIDATION_ERROR, instruction SYNTAX_ERROR, act-phase SYNTAX_ERROR, INTERNAL_ERROR, FILE_ACCESS_ERROR, case file that is not UTF-8, FAIL whose message quotes control characters) to <= 2 cases '
+RULE = ('suite hierarchies (flat with plain names / globs, one and two sub-suites, depth 2, directories with exactly.suite, sub/*.case, [suites] globs matching directories and suite files) x every assignment of the 14 verdicts '
+        '(PASS, FAIL, XFAIL, XPASS, SKIPPED, HARD_ERROR, VALIDATION_ERROR, instruction SYNTAX_ERROR, act-phase SYNTAX_ERROR, INTERNAL_ERROR, FILE_ACCESS_ERROR, case file that is not UTF-8, FAIL whose message quotes control characters, unexpected exception while the case is processed) to <= 2 cases '
         '(3 cases on the flat hierarchy; thorough: 3 everywhere) x reporter {progress, junit}; plus invalid suites (listed twice in several ways, diamond, cycle, self reference, '
         'missing case / suite, syntax error, unknown section, suite file that is not UTF-8, names below a regular file, symbolic-link loops, patterns that are not valid glob patterns); non-trivial = at least one case is not PASS or the hierarchy has sub-suites or is invalid')
 ASSUMPTIONS = [
@@ -21,7 +21,7 @@ ASSUMPTIONS = [
 ]
 
 VERDICTS = ('PASS', 'FAIL', 'XFAIL', 'XPASS', 'SKIPPED', 'HARD_ERROR', 'VALIDATION_ERROR', 'SYNTAX_ERROR', 'ACT_SYNTAX_ERROR', 'INTERNAL_ERROR', 'FILE_ACCESS_ERROR',
-            'UNDECODABLE', 'FAIL_CTRL')
+            'UNDECODABLE', 'FAIL_CTRL', 'PROCESSING_INTERNAL_ERROR')
 SUCCESS = ('PASS', 'SKIPPED', 'XFAIL')
 
 
@@ -52,6 +52,10 @@ def case_text(verdict, marker):
     if verdict == 'FAIL_CTRL':
         # a failing assertion whose message quotes control characters printed by the action
         return "[act]\n%s ctrl\n[assert]\nstdout equals 'x'\n" % act
+    if verdict == 'PROCESSING_INTERNAL_ERROR':
+        # the case fails as a whole while it is processed (read / parsed), with an unexpected exception: here a NUL character in the name of
+        # an included file (known finding KF-C18-NUL) - whatever the cause, both reporters must count the case as an error
+        return '[setup]\nincluding a\x00b\n[act]\n%s\n' % act
     if verdict == 'UNDECODABLE':
         # a case file that cannot be read as text (not UTF-8): processing the case fails as a whole
         return b'[act]\n% mark \xff\xfe\n'
@@ -59,7 +63,7 @@ def case_text(verdict, marker):
 
 
 RUNS_ACT = ('PASS', 'FAIL', 'XFAIL', 'XPASS', 'INTERNAL_ERROR', 'FAIL_CTRL')
-IDENT = {'ACT_SYNTAX_ERROR': 'SYNTAX_ERROR', 'UNDECODABLE': 'FILE_ACCESS_ERROR', 'FAIL_CTRL': 'FAIL'}
+IDENT = {'ACT_SYNTAX_ERROR': 'SYNTAX_ERROR', 'UNDECODABLE': 'FILE_ACCESS_ERROR', 'FAIL_CTRL': 'FAIL', 'PROCESSING_INTERNAL_ERROR': 'INTERNAL_ERROR'}
 
 # hierarchy: name -> (files builder).  A hierarchy is {suite file path: {'suites': [lines], 'cases': [lines]}} plus the case slots
 #   slots: ordered list of case paths in *expected processing order* grouped by suite: [(suite display name, [case paths])]
